@@ -2955,13 +2955,12 @@ new_connection_process_ (struct MHD_Daemon *daemon,
       if (! MHD_D_IS_USING_THREAD_PER_CONN_ (daemon))
       {
         /* The connection may have waited in the 'new connections' queue.
-           It becomes the head of the list sorted by the last activity
-           time, so (re)start the timeout timer now. */
+           It enters the list sorted by the last activity time,
+           so (re)start the timeout timer now. */
         if (0 != connection->connection_timeout_ms)
           connection->last_activity = MHD_monotonic_msec_counter ();
-        XDLL_insert (daemon->normal_timeout_head,
-                     daemon->normal_timeout_tail,
-                     connection);
+        MHD_normal_timeout_insert_sorted_ (daemon,
+                                           connection);
       }
       MHD_mutex_unlock_chk_ (&daemon->cleanup_connection_mutex);
 
@@ -3545,9 +3544,8 @@ resume_suspended_connections (struct MHD_Daemon *daemon)
           pos->last_activity = MHD_monotonic_msec_counter ();
 
         if (pos->connection_timeout_ms == daemon->connection_timeout_ms)
-          XDLL_insert (daemon->normal_timeout_head,
-                       daemon->normal_timeout_tail,
-                       pos);
+          MHD_normal_timeout_insert_sorted_ (daemon,
+                                             pos);
         else
           XDLL_insert (daemon->manual_timeout_head,
                        daemon->manual_timeout_tail,
